@@ -114,6 +114,24 @@ def oracle(ck):
     out = df_detrend(df, columns=["a", "s"], order=2)
     if not ("a_detrended" in out and "b_detrended" not in out and "s_detrended" not in out and np.allclose(out["a_detrended"].to_numpy(), polynomial_detrend(df["a"].to_numpy(), order=2)) and np.array_equal(out["a"].to_numpy(), df["a"].to_numpy())):
         ck.violation("df_detrend does not detrend exactly the selected numeric columns", dict(columns=["a", "s"]), tag="df")
+    # DataFrame wrapper on frames whose index is not 0..n-1 (time-stamped, sliced, filtered, re-sorted): row by row, not by label;
+    # in place or not, orders 0..3; applied twice it changes nothing
+    basef = pd.DataFrame({"a": 0.02 * np.arange(80.0) ** 2 + np.sin(np.arange(80) / 3.0), "b": np.cos(np.arange(80) / 5.0) + 0.3 * np.arange(80)})
+    frames = (("time index", basef.set_index(pd.Index(1000.0 + 0.25 * np.arange(80)))), ("row slice", basef.iloc[15:70]),
+              ("boolean filter", basef[np.arange(80) % 3 != 0]), ("re-sorted", basef.sort_values("b", ascending=False)))
+    for lab, fr in frames:
+        for order in (0, 1, 3):
+            for inplace in (False, True):
+                o = df_detrend(fr, columns=["a"], order=order, inplace=inplace)
+                col = "a" if inplace else "a_detrended"
+                want = polynomial_detrend(fr["a"].to_numpy(), order=order)
+                got = o[col].to_numpy() if col in o else None
+                if got is None or len(got) != len(want) or not np.allclose(got, want, rtol=0, atol=1e-9 * (1 + np.max(np.abs(want))), equal_nan=False):
+                    ck.violation("df_detrend on a %s frame (order %d, inplace=%s) does not return polynomial_detrend(column) row by row" % (lab, order, inplace), dict(frame=lab, order=order, inplace=inplace), tag="df-index")
+                    continue
+                o2 = df_detrend(o, columns=[col], order=order, inplace=True)
+                if not np.allclose(o2[col].to_numpy(), got, rtol=0, atol=1e-8 * (1 + np.max(np.abs(fr["a"].to_numpy())))):
+                    ck.violation("df_detrend applied twice changes the column (%s frame, order %d)" % (lab, order), dict(frame=lab, order=order), tag="df-idempotent")
     # result's own RMS method = integral_rms of its asd; Parseval link on broadband data (a few percent)
     from speckit.analysis import SpectrumAnalyzer
     for _ in range(2 if ck.tier == "quick" else 12):
